@@ -76,3 +76,13 @@ schema('backends.gdb_plugin.plugin.Plugin', out='Obj("core.output.output.Output"
        connection_id_sink='Obj("interfaces.connection_id_sink.ConnectionIDSink")', command_sink='Obj("interfaces.command_sink.CommandSink")',
        state='Obj("core.persistent_ui_state.PersistentUIState")',
        connections='Dict(str, Tuple(int, Obj("interfaces.connection.Connection")))')
+
+# ---- protocol descriptions (core/wl/protocol.py)
+P_ = 'core.wl.protocol.'
+schema(P_ + 'Interface', name='str', version='int', messages='ODict(str, Obj("%sMessage"))' % P_, enums='ODict(str, Obj("%sEnum"))' % P_)
+schema(P_ + 'Message', name='str', is_event='bool', args='ODict(str, Obj("%sArg"))' % P_)
+schema(P_ + 'Arg', name='str', type='str', interface='Opt(str)', enum='Opt(str)')
+schema(P_ + 'Enum', name='str', bitfield='bool', entries='ODict(str, Obj("%sEnumEntry"))' % P_)
+schema(P_ + 'EnumEntry', name='str', value='int')
+global_cell('core.wl.protocol.interfaces', 'Dict(str, Obj("%sInterface"))' % P_)
+schema(P_ + 'Protocol', name='str', xml_file='str', interfaces='ODict(str, Obj("%sInterface"))' % P_)
